@@ -218,7 +218,7 @@ def case_features(case, objs=None) -> List[str]:
 
 
 def _term_has(t, kind) -> bool:
-    while t[0] not in ("var", "const"):
+    while t[0] not in ("var", "const", "pcall"):
         if t[0] == kind:
             return True
         t = t[1]
